@@ -7,6 +7,7 @@ import (
 	"os"
 	"os/exec"
 	"path/filepath"
+	"regexp"
 	"runtime"
 	"sort"
 	"strconv"
@@ -55,6 +56,7 @@ type knownFinding struct {
 	Property string `json:"property"`
 	Label    string `json:"label"`
 	Scenario string `json:"scenario"`
+	ScenRe   string `json:"scenario_re,omitempty"` // alternative to scenario: the scenario must match this regular expression
 	Job      string `json:"job,omitempty"` // optional: restrict to one job name prefix
 	What     string `json:"what"`
 	Status   string `json:"status"` // "known" or "fixed"
@@ -182,7 +184,7 @@ func cmdCheck(args []string) int {
 				continue
 			}
 			if kf := matchKnown(known, v); kf != nil {
-				knownLines = append(knownLines, fmt.Sprintf("KNOWN-FINDING: property=%s %s [%s|%s]", id, kf.What, v.Label, v.Scenario))
+				knownLines = append(knownLines, fmt.Sprintf("KNOWN-FINDING: property=%s %s [label %s]", id, kf.What, v.Label))
 				continue
 			}
 			items = append(items, item{r, v, false})
@@ -275,7 +277,16 @@ func matchKnown(known []knownFinding, v *Violation) *knownFinding {
 		if k.Status == "fixed" {
 			continue
 		}
-		if k.Property == v.Property && k.Label == v.Label && k.Scenario == v.Scenario && (k.Job == "" || strings.HasPrefix(v.Job, k.Job)) {
+		if k.Property != v.Property || k.Label != v.Label || (k.Job != "" && !strings.HasPrefix(v.Job, k.Job)) {
+			continue
+		}
+		if k.ScenRe != "" {
+			if re, err := regexp.Compile("^(?:" + k.ScenRe + ")$"); err == nil && re.MatchString(v.Scenario) {
+				return k
+			}
+			continue
+		}
+		if k.Scenario == v.Scenario {
 			return k
 		}
 	}
